@@ -1,5 +1,7 @@
 SPECIFICATION Spec
 CONSTANTS
+    Stalls = FALSE
+    ClosesSource = TRUE
     MaxUnits = 3
     MaxEnv = 6
 INVARIANTS ForwardedIsPrefix EarlierBytesFirst NoSpuriousClose ReturnedMeansClosed NeverWedged
